@@ -36,6 +36,7 @@ UNITS.append(("nets", __import__("translator.nets", fromlist=["nets"]).nets, "Ge
 UNITS.append(("geminis", __import__("translator.geminis", fromlist=["geminis"]).geminis, "GemVerif/Gen/Geminis.lean"))  # C01/C02/C13 (C01Gen)
 UNITS.append(("wass", __import__("translator.wass", fromlist=["wass"]).wass, "GemVerif/Gen/Wass.lean"))  # C01/C02/C13/C17 (C01WassGen)
 UNITS.append(("prox", __import__("translator.prox", fromlist=["prox"]).prox, "GemVerif/Gen/Prox.lean"))  # C05/C06 (C05Gen)
+UNITS.append(("douglas", __import__("translator.douglas", fromlist=["douglas"]).douglas, "GemVerif/Gen/Douglas.lean"))  # C15/C03/C18 (C15Gen)
 
 if __name__ == "__main__":
     main()
